@@ -6,6 +6,7 @@
 #include "llvm/IR/Constants.h"
 #include "llvm/IR/DataLayout.h"
 #include "llvm/IR/DebugInfoMetadata.h"
+#include "llvm/IR/Metadata.h"
 #include "llvm/IR/Function.h"
 #include "llvm/IR/GetElementPtrTypeIterator.h"
 #include "llvm/IR/InlineAsm.h"
@@ -125,6 +126,11 @@ static void emitValue(raw_ostream &O, const Value *V) {
       << (IA->hasSideEffects() ? "true" : "false") << "}";
     return;
   }
+  if (auto *MV = dyn_cast<MetadataAsValue>(V))
+    if (auto *MS = dyn_cast<MDString>(MV->getMetadata())) {
+      O << "{\"k\":\"md\",\"s\":\"" << esc(MS->getString()) << "\"}";
+      return;
+    }
   O << "{\"k\":\"md\"}";
 }
 
